@@ -65,14 +65,6 @@ fn behaviour_term(j: &J) -> Result<String, String> {
     }
 }
 
-#[derive(Clone)]
-struct Inv {
-    peer: usize,
-    id: u32,
-    issued: usize,
-    answered: usize,
-}
-
 struct History {
     net: Net,
     issued: BTreeMap<(usize, u32), usize>,
@@ -170,7 +162,7 @@ fn run_case(case: &J) -> J {
     let mut terms = vec![];
     let mut infos = vec![];
     let mut classes = vec![];
-    let mut push = |h: &History, how: &str, terms: &mut Vec<String>, infos: &mut Vec<J>, classes: &mut Vec<String>| {
+    let push = |h: &History, how: &str, terms: &mut Vec<String>, infos: &mut Vec<J>, classes: &mut Vec<String>| {
         let (t, mut info) = h.term(&peers, &table_t);
         info["how"] = J::String(how.to_string());
         classes.push(format!("{}:{}", how, if info["drained"].as_bool().unwrap_or(false) { "drained" } else { "open" }));
